@@ -33,11 +33,19 @@ ContentOK(e) ==
     /\ IsHex(e.hex, HexLen(e.algo))
     /\ e.path = ContentPath(ContentDir, e.algo_b, e.hex)
 
+\* C15: a path touched in the index / content area is the bucket path of the operation's key /
+\* the content path of one of the addresses involved, or one of its parent directories
+IsPrefixSeq(s, t) == Len(s) <= Len(t) /\ SubSeq(t, 1, Len(s)) = s
+
+TouchOK(e) ==
+    \E i \in 1..Len(e.allowed) : IsPrefixSeq(e.path, e.allowed[i])
+
 Init == l = 2
 Next == /\ l <= N
         /\ CASE Ev.ev = "frame"   -> FrameOK(Ev)
              [] Ev.ev = "content" -> ContentOK(Ev)
              [] Ev.ev = "other"   -> Ev.n = 0
+             [] Ev.ev = "touch"   -> TouchOK(Ev)
              [] OTHER             -> TRUE
         /\ l' = l + 1
 Spec == Init /\ [][Next]_l
